@@ -395,7 +395,27 @@ def case_floodplains(ctx, rng, N):
     upa_min = rng.randint(2, 7)
     elev = [rng.randint(0, 12) for _ in range(N.n)]
     dt = rng.choice([np.float32, np.float64])
-    out = N.flw.floodplains(arr(N, elev, dt), uparea=arr(N, upa, np.float64), upa_min=upa_min, b=b)
+    if N.raster and rng.random() < 0.35:
+        # default upstream area (km2) on an object that may have served main-stem queries before:
+        # the cells flagged must still be those of the definition with the km2 upstream area
+        from affine import Affine
+        ca = rng.choice([2, 6, 12])  # cell area in km2 (projected): dx * dy = ca * 1e6 exactly
+        flw = mk_raster(N.ds, N.shape, transform=Affine(1000.0 * ca, 0.0, 0.0, 0.0, -1000.0, 0.0), latlon=False)
+        pre = rng.choice(["none", "moving_average", "idxs_us_main", "classic", "upstream_area"])
+        if pre == "moving_average":
+            flw.moving_average(np.ones(N.shape), n=1)
+        elif pre == "idxs_us_main":
+            flw.idxs_us_main
+        elif pre == "classic":
+            flw.stream_order(type="classic")
+        elif pre == "upstream_area":
+            flw.upstream_area()
+        upa = [max(u, 1) * ca for u in upstream_counts(N.ds)]
+        upa_min = upa_min * ca
+        out = flw.floodplains(arr(N, elev, dt), upa_min=upa_min, b=b)
+        ctx.count(f"floodplains:default-uparea:after-{pre}")
+    else:
+        out = N.flw.floodplains(arr(N, elev, dt), uparea=arr(N, upa, np.float64), upa_min=upa_min, b=b)
     impl = ints(out)
     # the parameter: the float32 value the implementation stores for uparea ** b
     hnum = []
